@@ -179,6 +179,14 @@ func (t *Tokenizer) Next() Token {
 	}
 }
 
+// drain consumes all remaining tokens. The tokenizer goroutine blocks until
+// every token is taken, so this allows it to terminate if parsing has stopped
+// before the end of the input.
+func (t *Tokenizer) drain() {
+	for range t.tok {
+	}
+}
+
 func (t *Tokenizer) getLine() Line {
 	return t.line
 }
